@@ -81,8 +81,26 @@ def run(ctx):
                 s['cfg']['B'] = rng.choice([256, 300, 517])
                 s['Q'] = s['Q'][:2]
                 s['cells'] = s['cells'][:2]
+            if i % 8 == 6:
+                # many siblings, few runners-up requested, votes spread over more than K + 1 of them
+                s = maptrace.gen_scenario(rng, tree=maptrace.random_tree(rng, 1, 7, 5), ncell=rng.randint(4, 8), G=6)
+                s['cfg'].update(K=rng.randint(1, 2), B=rng.randint(8, 12), fnum=rng.randint(2, 4), drop=None,
+                                flatten=False)
+                s['markers'] = {'0/0': [1, 2, 3, 4, 5, 6]}
+                s['qgenes'] = rng.sample(range(1, 7), 6)
+                s['Q'] = [[rng.randint(0, 4) for _ in range(6)] for _ in s['cells']]
             scns.append(s)
         results = campaign(ctx, scns, 'MapRun_Trace_c03')
+        # raw counts incl. a cell without any count (constant profile: every correlation 0).  The votes are not
+        # recomputed by TLC here (log2(CPM+1) of the counts is not an integer); records and contract are.
+        raws = []
+        for i in range(10 if quick else 120):
+            s = maptrace.gen_scenario(rng, max_levels=3, max_leaves=6, min_leaves=2, ncell=rng.randint(2, 8))
+            s['cfg'].update(norm='raw', B=rng.randint(1, 8))
+            s['Q'] = [[rng.randint(0, 30) for _ in s['qgenes']] for _ in s['cells']]
+            s['Q'][rng.randrange(len(s['Q']))] = [0] * len(s['qgenes'])
+            raws.append(s)
+        results += campaign(ctx, raws, 'MapRun_Trace_c03_raw', votes=False)
     nviol, blocked = report_for(ctx, results, PID)
     nrec = 0
     for r in results:
